@@ -946,3 +946,8 @@ Lemma history_pointwise (R : Type) r0 r1 radd rmul rinv (calls : list (acall R))
   nth_error calls i = Some c ->
   nth_error (analyze_history R r0 r1 radd rmul rinv calls) i = Some (run_acall R r0 r1 radd rmul rinv c).
 Proof. intros H. unfold analyze_history. apply map_nth_error. exact H. Qed.
+
+Lemma ohistory_pointwise (R : Type) r0 rmul (calls : list (ocall R)) i c :
+  nth_error calls i = Some c ->
+  nth_error (operator_history R r0 rmul calls) i = Some (run_ocall R r0 rmul c).
+Proof. intros H. unfold operator_history. apply map_nth_error. exact H. Qed.
